@@ -21,6 +21,17 @@ var (
 	VerifErrNoFetchesPending = errNoFetchesPending
 )
 
+// VerifSetBlockCacheMemory sets the package variable blockCacheMemory (the memory
+// allowance of the result cache, read by the queue on every call) and returns a
+// function that restores the previous value. n <= 0 leaves it unchanged.
+func VerifSetBlockCacheMemory(n int) func() {
+	old := blockCacheMemory
+	if n > 0 {
+		blockCacheMemory = n
+	}
+	return func() { blockCacheMemory = old }
+}
+
 // VerifMaxResultsProcess is the batch limit of Results.
 func VerifMaxResultsProcess() int { return maxResultsProcess }
 
